@@ -76,6 +76,7 @@ pub fn build(id: &str, tier: Tier) -> Option<Check> {
             id: "C05",
             jobs: vec![
                 bfs(Fee { exact: vec![("0.5", (1, 2)), ("0.9", (1, 10))], ..Fee::base("c05-configs") }, tier.pick(3, 5), secs),
+                bfs(Fee { with_param_update: true, fees: vec!["0.005"], thresholds: vec!["0.95"], slashes: vec![(1, 100)], ..Fee::base("c05-partial-param-update") }, tier.pick(3, 4), secs),
                 bfs(Fee { rewarded: true, fees: vec!["0.005", "0.25", "1"], thresholds: vec!["1", "0.95"], ..Fee::base("c05-rewarded") }, tier.pick(3, 4), secs),
                 bfs(Fee { scale: 1_000_000_000_000_000, slashes: vec![(1, 10000), (1, 2)], fees: vec!["0.005", "1"], thresholds: vec!["1", "0.95"], ..Fee::base("c05-1e15") }, tier.pick(3, 4), secs),
             ],
@@ -162,7 +163,7 @@ pub fn build(id: &str, tier: Tier) -> Option<Check> {
             id: "C11",
             jobs: vec![
                 bfs(hub("c11-pause-probes", |h| { h.arm.c11 = true; h.with_rewards = true; h.with_registry = true; h.budget = 1; h.seeds = if q { vec!["funded", "inflight"] } else { vec!["funded", "inflight", "slashed_unseen", "rewarded"] }; }), tier.pick(3, 4), secs),
-                bfs(crate::pause::Legacy { entries: vec![0, 1, 3] }, tier.pick(5, 8), secs),
+                bfs(crate::pause::Legacy { entries: vec![0, 1, 3], with_v2: true }, tier.pick(5, 8), secs),
             ],
             rule: "in every distinct state of a hub exploration (bond, unbond, convert, withdraw, index update, accrual, registry, time, slashing; depth 2 quick / 3 thorough) the owner pauses a clone; then (a) every hub query must answer as before, (b) the full matrix of 14 hub message shapes x 11 sender classes must fail without any change, as must every path entering the hub through a token Send hook, the registry or a burn, (c) UpdateParams by non-owners is refused and the wait-list migration is a no-op, (d) unpausing either way restores the pre-pause state byte for byte (pause-flag representation aside) and (e) every action of the alphabet gives the identical result and successor in the original and in the cycled world (lock-step product); a second scenario seeds 0/1/3 legacy wait-list entries (as the repository's test_pause does) and explores unpause/migrate/pause sequences to a fixpoint; non-trivial = states probed".into(),
             assumptions: envelope(),
